@@ -518,7 +518,14 @@ def rule_sumdist(run):
     key = 'connection_params :: block height from block_surface(), as in block_volume'
     bv = prog.func(G + 'block_volume')
     uses_bv = any(isinstance(c, ast.Call) and call_name(c) == 'block_surface' for c in ast.walk(bv.node))
-    if not h or not uses_bv: run.unknown(key, 'height assignment / block_volume shape not found', where=cp.where())
+    all_calls = [c for c in ast.walk(cp.node) if isinstance(c, ast.Call) and call_name(c) == 'block_surface']
+    direct = [x for x in ast.walk(cp.node) if isinstance(x, ast.Attribute) and x.attr == 'surface' and isinstance(x.ctx, ast.Load)]
+    if uses_bv and not all_calls and direct:
+        # whatever the locals are called: the block top is rebuilt from col.surface instead of being asked of block_surface()
+        run.violated(key, 'connection_params reads `%s` itself and never calls block_surface(), which block_volume uses for the top of a block: the '
+                     'two disagree for a top-layer block whose column surface lies above the top of the model (block_surface extends the block up to '
+                     'the surface), so the interface area is no longer edge length times the lower block height' % norm(direct[0]), where=cp.where(direct[0]), robust=True)
+    elif not h or not uses_bv: run.unknown(key, 'height assignment / block_volume shape not found', where=cp.where())
     else:
         calls = [c for c in ast.walk(h[0].value) if isinstance(c, ast.Call) and call_name(c) == 'block_surface']
         r = compare(h[0].value, 'min([self.block_surface(lay, c) - lay.bottom for c in con.column])')
@@ -563,7 +570,17 @@ def rule_sumdist(run):
         else: run.unknown(k, 'd = `%s`, dircos = `%s`' % (norm(dd[0].value), norm(dc[0].value)), where=ah.where(dc[0]))
 
 
+def rule_nonetest(run):
+    run.rule('NONETEST', 'in the functions that turn the geometry into blocks and connections, an optional number (a column surface: None '
+             'means "the default") is never tested by truthiness - a surface of exactly 0 would be taken for a missing one', floor=1)
+    from .optnum import optnum_rule
+    names = ('block_surface', 'block_volume', 'block_centre', 'connection_params', 'block_name_list_layer_column', 'block_name_list_dmplex',
+             'setup_block_name_index', 'setup_block_connection_name_index', 'set_column_num_layers', 'column_surface_layer')
+    optnum_rule(run, ['mulgrids'], only=lambda fi: fi.name in names)
+
+
 def check(run):
+    run.guarded('NONETEST', rule_nonetest)
     run.guarded('TWIN', rule_twin)
     run.guarded('SUMDIST', rule_sumdist)
     run.guarded('PRED', lambda r: rule_pred(r, floor=8, only=('mulgrid.block_name_list_layer_column', 'mulgrid.block_name_list_dmplex', 'mulgrid.setup_block_connection_name_index', 'mulgrid.set_column_num_layers', 'mulgrid.block_surface', 'mulgrid.block_centre', 't2grid.add_connections')))
